@@ -40,6 +40,11 @@ type Writer struct {
 	currentChunkEndTime      uint64
 	currentChunkMessageCount uint64
 
+	// messageTimeRangeSet records that Statistics.MessageStartTime/MessageEndTime
+	// reflect at least one message. Zero is a valid log time, so it cannot
+	// double as "unset".
+	messageTimeRangeSet bool
+
 	opts *WriterOptions
 
 	closed bool
@@ -242,6 +247,7 @@ func (w *Writer) WriteMessage(m *Message) error {
 	if m.LogTime < w.Statistics.MessageStartTime || w.Statistics.MessageCount <= 1 {
 		w.Statistics.MessageStartTime = m.LogTime
 	}
+	w.messageTimeRangeSet = true
 	return nil
 }
 
@@ -512,11 +518,22 @@ func (w *Writer) WriteChunkWithIndexes(c *Chunk, messageIndexes []*MessageIndex)
 
 	w.Statistics.ChunkCount++
 
-	if w.Statistics.MessageStartTime == 0 || c.MessageStartTime < w.Statistics.MessageStartTime {
-		w.Statistics.MessageStartTime = c.MessageStartTime
+	// A chunk without messages has zero start and end times and must not
+	// affect the time range of the recording.
+	chunkHasMessages := c.MessageStartTime != 0 || c.MessageEndTime != 0
+	for _, messageIndex := range messageIndexes {
+		if !messageIndex.IsEmpty() {
+			chunkHasMessages = true
+		}
 	}
-	if c.MessageEndTime > w.Statistics.MessageEndTime {
-		w.Statistics.MessageEndTime = c.MessageEndTime
+	if chunkHasMessages {
+		if !w.messageTimeRangeSet || c.MessageStartTime < w.Statistics.MessageStartTime {
+			w.Statistics.MessageStartTime = c.MessageStartTime
+		}
+		if c.MessageEndTime > w.Statistics.MessageEndTime {
+			w.Statistics.MessageEndTime = c.MessageEndTime
+		}
+		w.messageTimeRangeSet = true
 	}
 
 	return nil
